@@ -7,14 +7,16 @@ from . import boot
 
 CLAIMED = {
     "C01": ("exploration", "3.1",
-            "Seeded simulation in the fault-free configuration: every run synthesises a product "
+            "Seeded simulation, mostly fault-free: every run synthesises a product "
             "(independent encoder), serves it through one of five storage back-ends with one "
             "records_per_chunk and compares every loaded sample word for word with the truth "
             "model (full load, blocks kept across later reads, a second same-named product in the "
-            "same interpreter; worlds from 1x1 to 10 MB files, varied line prefixes). Sampling, "
+            "same interpreter, reads through an index cache, one load under an injected EIO; worlds "
+            "from 1x1 to 140 MB files, varied descriptors and line prefixes). Sampling, "
             "not proof; the simulator contributes back-end/request-size variation "
             "and the recorded request stream, no interleavings.",
-            "seeded deterministic simulation, fault-free configuration; truth-model oracle"),
+            "seeded deterministic simulation (storage back-ends, request sizes, EIO during loads); "
+            "truth-model oracle"),
     "C02": ("exploration", "3.1",
             "Seeded simulation, one actor: generated and (for small images) exhaustively enumerated "
             "index expressions are applied to the lazily opened image, to an in-memory twin and to "
